@@ -31,7 +31,7 @@ def models(cons):
     for asg in itertools.product(range(M),repeat=2):
         if all(ev(c,asg) for c in cons): out.append(asg)
     return out
-KINDS={"CompositeHybridless":lambda:claripy.SolverComposite(template_solver=claripy.SolverCacheless()),"Solver":lambda:claripy.Solver(),"Cacheless":lambda:claripy.SolverCacheless(),"Composite":lambda:claripy.SolverComposite(),
+KINDS={"Hybrid2":lambda:claripy.SolverHybrid(),"CompositeHybridless":lambda:claripy.SolverComposite(template_solver=claripy.SolverCacheless()),"Solver":lambda:claripy.Solver(),"Cacheless":lambda:claripy.SolverCacheless(),"Composite":lambda:claripy.SolverComposite(),
        "Replacement":lambda:claripy.SolverReplacement(claripy.Solver()),"Hybrid":lambda:claripy.SolverHybrid(),"Core":lambda:claripy.Solver(track=True)}
 bugs={}
 def report(kind, what, hist):
@@ -54,7 +54,22 @@ for it in range(N):
                 ms=models(cons+extra)
                 vals=sorted({ev(e,a) for a in ms})
                 hist.append((op,i,str(e),[str(c) for c in extra]))
-                if op=="eval":
+                if op=="eval" and kind in ("Hybrid","Hybrid2") and rnd.random()<.7:
+                    # approximate mode: fewer than n answers means these are all, so every feasible value must be among them
+                    try: got=sorted(s.eval(e,M+2,extra_constraints=extra,exact=False))
+                    except claripy.UnsatError: got=None
+                    if vals and got is None: report(kind,"approx-eval: UnsatError but models exist",hist)
+                    elif got is not None and len(got)<M+2 and not set(vals)<=set(got): report(kind,f"approx-eval: got {got} lacks feasible {sorted(set(vals)-set(got))}",hist)
+                    try:
+                        sa=s.satisfiable(extra_constraints=extra,exact=False)
+                        if ms and not sa: report(kind,"approx-sat: False but models exist",hist)
+                        mx=s.max(e,extra_constraints=extra,exact=False)
+                        if vals and mx<max(vals): report(kind,f"approx-max: {mx} below feasible {max(vals)}",hist)
+                        mn=s.min(e,extra_constraints=extra,exact=False)
+                        if vals and mn>min(vals): report(kind,f"approx-min: {mn} above feasible {min(vals)}",hist)
+                    except claripy.UnsatError:
+                        if ms: report(kind,"approx: UnsatError but models exist",hist)
+                elif op=="eval":
                     n=rnd.choice([1,2,M+2])
                     try: got=sorted(s.eval(e,n,extra_constraints=extra))
                     except claripy.UnsatError: got=None
